@@ -1010,6 +1010,12 @@ func (vc *FnVC) doLookup(x *ssa.Lookup, st *State) {
 		get := vc.mapGet(st, u, m, k)
 		// a present key implies a non-empty map
 		vc.assume(implies(has, "(> "+sel(vc.cur(st, "ML"), m)+" 0)"))
+		if g := globalRoot(x.X); g != nil && g.Pkg != nil && vc.prog.cs.MapNonNil[g.Pkg.Pkg.Path()+"::"+g.Name()] {
+			// registry declared `global mapvalues-nonnil`: a present key holds a non-nil value
+			// (A6: registrations pass non-nil values; module registration sites are scanned)
+			vc.usedMapNonNil[g] = true
+			vc.assume(implies(has, not(eq(sel(sel(vc.cur(st, mvCompOf(vc, u)), m), k), vc.enc.zero(u.Elem())))))
+		}
 		if x.CommaOk {
 			vs := vc.enc.sortOf(u.Elem())
 			vn := vc.enc.freshConst("v$"+sanitize(x.Name()), vs)
@@ -1222,4 +1228,9 @@ func (vc *FnVC) doMakeClosure(x *ssa.MakeClosure, st *State) {
 		vc.setCompFresh(st, c, sto(vc.cur(st, c), r, vc.term(b).S))
 	}
 	vc.setTerm(x, r)
+}
+
+func mvCompOf(vc *FnVC, m *types.Map) string {
+	_, mv, _, _ := vc.mapComps(m)
+	return mv
 }
